@@ -581,6 +581,7 @@ func runC20(p *core.Prog, r *core.Report, tier string) {
 
 	// ---------- (3) fan-out goroutines ----------
 	nFan := 0
+	nCtxFan := 0
 	for _, f := range p.SrcFuncs() {
 		core.EachInstr(f, func(in ssa.Instruction) {
 			g, ok := in.(*ssa.Go)
@@ -604,6 +605,57 @@ func runC20(p *core.Prog, r *core.Report, tier string) {
 			}
 			if body == nil {
 				return
+			}
+			// (4) in the strategies the requests of a fan-out run under the strategy's own time limit: the context
+			// handed to (or captured by) the goroutine derives from context.WithTimeout/WithDeadline, so a node
+			// that never answers holds its goroutine for the time limit, not for the life of the caller's context
+			if strings.HasPrefix(core.RelPkg(f.Pkg.Pkg.Path()), "strategies/") {
+				var ctxVals []ssa.Value
+				for _, a := range g.Call.Args {
+					if strings.HasSuffix(a.Type().String(), "context.Context") {
+						ctxVals = append(ctxVals, a)
+					}
+				}
+				if mc, ok := g.Call.Value.(*ssa.MakeClosure); ok {
+					for _, b := range mc.Bindings {
+						t := b.Type()
+						if pt, ok := t.(*types.Pointer); ok {
+							t = pt.Elem()
+						}
+						if strings.HasSuffix(t.String(), "context.Context") {
+							ctxVals = append(ctxVals, b)
+						}
+					}
+				}
+				var bounded func(v ssa.Value, depth int) bool
+				bounded = func(v ssa.Value, depth int) bool {
+					d := ds.D(v)
+					if d.MentionsCall("context.WithTimeout", "context.WithDeadline") {
+						return true
+					}
+					if prm, ok := v.(*ssa.Parameter); ok && depth < 3 {
+						for i, q := range prm.Parent().Params {
+							if q == prm {
+								os := p.ParamOrigins(prm.Parent(), i, 0)
+								if len(os) == 0 {
+									return false
+								}
+								for _, o := range os {
+									if !bounded(o, depth+1) {
+										return false
+									}
+								}
+								return true
+							}
+						}
+					}
+					return false
+				}
+				for i, cv := range ctxVals {
+					nCtxFan++
+					r.Check(bounded(cv, 0), "C20.4", fmt.Sprintf("%s|fan-out over %s|context#%d", core.FnKey(f), types.ExprString(l.RangeExpr()), i+1), p.Pos(g.Pos()), "the requests run under the strategy's time limit",
+						"the goroutines of this fan-out run under "+ds.D(cv).String()+", which is not bounded by the strategy's timeout: a node that never answers keeps its goroutine (and connection) for as long as the caller's context lives — one more per call")
+				}
 			}
 			// plain sends in the body on channel parameters / captured channels
 			for k, a := range g.Call.Args {
@@ -646,6 +698,7 @@ func runC20(p *core.Prog, r *core.Report, tier string) {
 	}
 	r.Count("fan-out goroutine/channel pairs", nFan)
 	r.Floor("C20.3 fan-out goroutine/channel pairs", nFan, 20)
+	r.Floor("C20.4 strategy fan-out contexts", nCtxFan, 12)
 }
 
 func dedupe(in []string) []string {
